@@ -28,6 +28,7 @@ func (Prop) Plan(t vp.Tier) []vp.Stage {
 	}
 	return []vp.Stage{
 		{Name: "matrix", NBatches: 8, TimeoutS: 900},
+		{Name: "after-kill", NBatches: 4, TimeoutS: 900},
 		{Name: "programs", NBatches: nb, TimeoutS: 2400},
 		{Name: "programs-race", NBatches: 8, Race: true, TimeoutS: 2400},
 	}
@@ -40,6 +41,8 @@ func (Prop) Describe(t vp.Tier) vp.Description {
 			"{pcall, pcall of a function defined on other lines, xpcall, pcall in pcall, xpcall in pcall, pcall in xpcall, coroutine.resume, coroutine.wrap in pcall, resume inside xpcall, no protected call (the embedding caller)}, "+
 			"in 4 renderings, followed by a fixed health suite (closures, deep and tail calls, a coroutine generator, table growth, string building, another caught error). The events, including the handler's "+
 			"('handler', message, identity) event and the ('close', id, error) events, the catcher's results and the 'chunk:line:' prefix must equal the reference's. "+
+			"Stage after-kill: 8 ways of leaving protected calls by a killed execution context (cpu/memory limit hit inside xpcall, nested xpcall, pcall in xpcall, a coroutine, a message handler, a __close handler) x 5 catchers: an error(errobj) raised afterwards "+
+			"in the code around must reach exactly that catcher with the same table, the catcher's own handler runs once, and no handler of a protected call that is over runs (expected events written down from the property; the reference has no contexts). "+
 			"Stage programs: generated programs weighted towards error sites, raising metamethods and iterators, nested pcall/xpcall/coroutines, with the health suite appended. "+
 			"Non-trivial: at least one error was caught by a protected call or reached the embedding caller and >= 3 events; distinct by program text and arguments.", len(lg.ErrMatrix())),
 		Assumptions: []string{
@@ -71,6 +74,10 @@ func caught(cs *eng.Case) bool {
 }
 
 func (Prop) RunBatch(c *vp.Child) {
+	if c.Stage == "after-kill" {
+		afterKill(c)
+		return
+	}
 	if c.Stage == "matrix" {
 		cells := lg.ErrMatrix()
 		eng.RunFixed(c, len(cells), 4, func(i int) (*lg.Program, string) {
